@@ -36,7 +36,17 @@ RULE = ("(1) every history of length<=L (quick 4; thorough 6 for DictLoader, 5 f
         "the same alphabet on cache sizes {1,2,3} + alternately 0 / -1 (auto_reload off only for "
         "DictLoader and FileSystemLoader) and additionally FileSystemLoader with "
         "zigzag mtimes (alternately above/below the initial one) and PackageLoader with mtimes moving "
-        "up and down. Per lookup the harness observes the names passed to "
+        "up and down; (3) bytecode caches (the template cache must behave the same whether the code "
+        "of a template was compiled or came out of a bytecode cache): every 8th (loader, cache size, "
+        "auto_reload) execution of the enumerated histories and every 2nd of the long ones -- the "
+        "choice rotating from history to history -- is repeated with Environment(bytecode_cache=...) "
+        "in one of the modes cold (empty in-memory BytecodeCache subclass of the harness: hits after "
+        "LRU eviction / after a source went back to an earlier version), warm (the same cache already "
+        "holding the code of every source version of every name, stored through get_bucket/set_bucket "
+        "by ANOTHER environment: the restarted-process / shared-cache situation, every load is a hit) "
+        "and, long histories only, fswarm (FileSystemBytecodeCache directory filled the same way and "
+        "shared by all environments of the shard); the reference model is the same as without a "
+        "bytecode cache. Per lookup the harness observes the names passed to "
         "loader.get_source (instance wrapper), returned template identity, render text / "
         "TemplateNotFound, and after the lookup len(env.cache) and the (loader, name) pairs in "
         "env.cache.keys() (for a bounded cache also their order, documented as most recently used "
@@ -59,6 +69,9 @@ ASSUMPTIONS = [
     "INCONCLUSIVE",
     "PackageLoader only on a regular directory package (the zip variant supplies no up-to-date check)",
     "where the documentation is silent (same text rewritten; stale entry after a failed reload) either behaviour is accepted",
+    "bytecode caches: an in-memory BytecodeCache subclass and FileSystemBytecodeCache, both counting "
+    "loads that came back with code; a bytecode cache is expected to be invisible in everything the "
+    "check observes (loader calls, template identity, text, cache content); memcached is not used",
     "swapping env.loader is only enumerated with auto_reload on (the documentation does not say what a "
     "non-reloading environment does after its loader attribute is replaced)",
 ]
@@ -75,7 +88,9 @@ FLOORS = {
                            "pkg_reload_check_on_deleted_file": 280,
                            "long_histories": 128, "cache_len_checks": 90000,
                            "cache_content_checks": 90000, "cache_order_checks": 60000,
-                           "reload_in_full_cache": 270, "fs_reload_mtime_backwards": 300}},
+                           "reload_in_full_cache": 270, "fs_reload_mtime_backwards": 300,
+                           "exec_bcc_cold": 3500, "exec_bcc_warm": 3500, "exec_bcc_fswarm": 800,
+                           "bytecode_hits": 4500, "lookup_of_changed_bytecode_loaded": 1}},
     "thorough": {"evaluations": 650000, "distinct": 12000,
                  "counters": {"lookups": 1700000, "loader_calls": 1400000,
                               "served_from_cache": 280000, "reload_of_cached": 13000,
@@ -138,6 +153,65 @@ def scratch_dir(prefix):
     return tempfile.mkdtemp(prefix=prefix, dir=base)
 
 
+BCC_MODES = ("none", "cold", "warm", "fswarm")
+_BCC_CLASSES = {}
+
+
+def bcc_classes():
+    """Harness-side bytecode caches (documented extension point: subclass
+    BytecodeCache with load_bytecode / dump_bytecode) that count how often a
+    bucket came back WITH code, i.e. a template was built without compiling."""
+    if _BCC_CLASSES:
+        return _BCC_CLASSES
+    from jinja2 import BytecodeCache, FileSystemBytecodeCache
+
+    class MemoryBytecodeCache(BytecodeCache):
+        def __init__(self, data=None):
+            self.data = dict(data or {})
+            self.hits = 0
+
+        def load_bytecode(self, bucket):
+            raw = self.data.get(bucket.key)
+            if raw is not None:
+                bucket.bytecode_from_string(raw)
+                if bucket.code is not None:
+                    self.hits += 1
+
+        def dump_bytecode(self, bucket):
+            self.data[bucket.key] = bucket.bytecode_to_string()
+
+    class CountingFSBytecodeCache(FileSystemBytecodeCache):
+        hits = 0
+
+        def load_bytecode(self, bucket):
+            super().load_bytecode(bucket)
+            if bucket.code is not None:
+                self.hits += 1
+
+    _BCC_CLASSES["mem"] = MemoryBytecodeCache
+    _BCC_CLASSES["fs"] = CountingFSBytecodeCache
+    return _BCC_CLASSES
+
+
+def warm_up(bcc, loaders):
+    """What another environment / an earlier process sharing the bytecode cache
+    leaves behind: the code of every source version of every name, stored
+    through the documented get_bucket / set_bucket interface under the file
+    name the loader reports."""
+    from jinja2 import Environment
+
+    env = Environment()
+    for lid, ld in enumerate(loaders):
+        for n in NAMES:
+            filename = ld.get_source(env, n)[1]
+            for ver in (0, 1):
+                src = text_of(lid, n, ver)
+                bucket = bcc.get_bucket(env, n, filename, src)
+                if bucket.code is None:
+                    bucket.code = env.compile(src, n, filename)
+                    bcc.set_bucket(bucket)
+
+
 class Kit:
     """Per-shard scratch: two directories for the FileSystemLoader worlds and two
     importable directory packages for the PackageLoader worlds."""
@@ -165,6 +239,36 @@ class Kit:
         # what is on disk: tree -> [name -> (text, stamp) | absent] per loader id
         self.disk = {t: [dict(), dict()] for t in self.trees}
         self.mode = {t: "up" for t in self.trees}
+        # bytecode caches: pre-filled in-memory data per file-name space, and
+        # one persistent FileSystemBytecodeCache directory per file-name space
+        self.warm_data = {}
+        self.bcdirs = {}
+
+    def bytecode_cache(self, mode, kind, loaders):
+        """none | cold: empty in-memory bytecode cache | warm: in-memory cache
+        already holding the code of every source version (filled by another
+        environment) | fswarm: FileSystemBytecodeCache on a directory that
+        outlives the environments of this shard and is filled the same way."""
+        if mode == "none":
+            return None
+        cls = bcc_classes()
+        if mode == "cold":
+            return cls["mem"]()
+        space = kind if kind in ("dict", "func", "funcup") else self.tree_of(kind)
+        if mode == "warm":
+            if space not in self.warm_data:
+                b = cls["mem"]()
+                warm_up(b, loaders)
+                self.warm_data[space] = b.data
+            return cls["mem"](self.warm_data[space])
+        if mode == "fswarm":
+            d = self.bcdirs.get(space)
+            if d is None:
+                d = self.bcdirs[space] = os.path.join(self.root, "bc_" + space)
+                os.mkdir(d)
+                warm_up(cls["fs"](d), loaders)
+            return cls["fs"](d)
+        raise AssertionError(mode)
 
     @staticmethod
     def tree_of(kind):
@@ -281,7 +385,7 @@ def observe_cache(env, loaders):
     return n, out
 
 
-def run_history(kit, kind, size, ar, hist, stats=None):
+def run_history(kit, kind, size, ar, hist, stats=None, bcc="none"):
     """Execute one history.  Returns None or (key, what)."""
     from jinja2 import Environment, TemplateNotFound
 
@@ -297,7 +401,10 @@ def run_history(kit, kind, size, ar, hist, stats=None):
         ld, mp = make_loader(kind, lid, worlds[lid], kit, calls)
         loaders.append(ld)
         mappings.append(mp)
-    env = Environment(loader=loaders[0], cache_size=size, auto_reload=ar)
+    bc = kit.bytecode_cache(bcc, kind, loaders)
+    del calls[:]
+    env = Environment(loader=loaders[0], cache_size=size, auto_reload=ar, bytecode_cache=bc)
+    from_bc = set()    # idents of templates whose code came out of the bytecode cache
     cfg = M.Cfg(size, ar, has_check=(kind != "func"), binding_stamp=(kind == "funcup"))
     states = {()}
     seen = {}      # id(template) -> ident
@@ -305,6 +412,8 @@ def run_history(kit, kind, size, ar, hist, stats=None):
     active = 0
     stamp = 0
     tag = f"{kindtag(kind)}:auto_reload={'on' if ar else 'off'}:size={sizeclass(size)}"
+    if bc is not None:
+        tag += f":bytecode_cache={bcc}"
 
     def setsrc(lid, name, val):
         w = worlds[lid]
@@ -343,6 +452,7 @@ def run_history(kit, kind, size, ar, hist, stats=None):
         names = tuple(op[1:])
         del calls[:]
         new_ident = len(keep)
+        hits0 = bc.hits if bc is not None else 0
         try:
             if c == "g":
                 t = env.get_template(names[0])
@@ -365,6 +475,17 @@ def run_history(kit, kind, size, ar, hist, stats=None):
                 return (f"render-exception:{type(e).__name__}:{tag}",
                         f"step {step} {op}: render raised {type(e).__name__}: {e}")
             res = ("ok", ident, text)
+            if bc is not None and ident == new_ident and bc.hits > hits0:
+                from_bc.add(ident)
+        if bc is not None and stats is not None:
+            stats["bytecode_hits"] += bc.hits - hits0
+            # the lookup concerns a cached template that was built from cached
+            # bytecode and whose source has changed / gone since
+            if size != 0 and any(
+                    (e := M._find(s, (active, n))) is not None and e[0] in from_bc
+                    and worlds[active].get(n) != (e[1], e[2])
+                    for n in names for s in states):
+                stats["lookup_of_changed_bytecode_loaded"] += 1
         obs = (tuple(calls), res)
         pred = []
         for s in sorted(states):
@@ -531,7 +652,8 @@ STAT_KEYS = ("lookups", "loader_calls", "notfound", "served_from_cache", "reload
              "evicting_loads", "ambiguous_model_states", "cache_unobservable", "cache_len_checks",
              "cache_keys_unreadable", "cache_content_checks", "cache_order_checks",
              "reload_in_full_cache", "fs_reload_mtime_backwards", "empty_template_served",
-             "lookup_of_deleted_cached", "pkg_reload_check_on_deleted_file")
+             "lookup_of_deleted_cached", "pkg_reload_check_on_deleted_file",
+             "bytecode_hits", "lookup_of_changed_bytecode_loaded")
 
 
 def random_history(rng, length):
@@ -550,12 +672,17 @@ def random_history(rng, length):
             return hist
 
 
-def exec_all(ctx, kit, stats, hist, kinds, sizes, part, off_kinds=None):
+def exec_all(ctx, kit, stats, hist, kinds, sizes, part, off_kinds=None, rot=0, bcc_every=0,
+             bcc_modes=("cold", "warm")):
     """Run one history for every (loader kind, cache size, auto_reload);
-    auto_reload off only for off_kinds when given."""
+    auto_reload off only for off_kinds when given.  bcc_every = k > 0: every
+    k-th (kind, size, auto_reload) combination -- rotating with ``rot`` from
+    history to history -- is executed a second time with a bytecode cache
+    configured, the modes rotating too."""
     has_swap = "w" in hist
     changes = any(o[0] in "mn" for o in hist)
     n = 0
+    combo = rot
     for kind in kinds:
         if kind in FS_KINDS and FS_KINDS[kind] != "up" and not changes:
             continue        # no source is (re)written: the mtime direction cannot matter
@@ -569,16 +696,23 @@ def exec_all(ctx, kit, stats, hist, kinds, sizes, part, off_kinds=None):
                     continue
                 if not ar and kind in PKG_KINDS and part == "exhaustive":
                     continue    # budget: auto_reload off on a package only in the long histories
-                bad = run_history(kit, kind, size, ar, hist, stats)
-                n += 1
-                ctx.ev()
-                ctx.count("exec_" + kind)
-                if size == 3:
-                    ctx.count("exec_size3")
-                if bad:
-                    ctx.violation(bad[0], bad[1],
-                                  {"kind": kind, "size": size, "auto_reload": ar,
-                                   "hist": list(hist), "part": part})
+                combo += 1
+                modes = ["none"]
+                if bcc_every and combo % bcc_every == 0:
+                    modes.append(bcc_modes[(combo // bcc_every) % len(bcc_modes)])
+                for bcc in modes:
+                    bad = run_history(kit, kind, size, ar, hist, stats, bcc)
+                    n += 1
+                    ctx.ev()
+                    ctx.count("exec_" + kind)
+                    if bcc != "none":
+                        ctx.count("exec_bcc_" + bcc)
+                    if size == 3:
+                        ctx.count("exec_size3")
+                    if bad:
+                        ctx.violation(bad[0], bad[1],
+                                      {"kind": kind, "size": size, "auto_reload": ar,
+                                       "hist": list(hist), "part": part, "bcc": bcc})
     return n
 
 
@@ -592,7 +726,8 @@ def part_long(ctx, kit, stats, quick):
         hist = random_history(rng, rng.randint(lo, hi))
         # bounded sizes always; 0 and unbounded alternately (the exhaustive part has them)
         exec_all(ctx, kit, stats, hist, LONG_KINDS, (1, 2, 3, (0, -1)[i % 2]), "long",
-                 off_kinds=("dict", "fs", "pkg"))
+                 off_kinds=("dict", "fs", "pkg"), rot=i, bcc_every=2,
+                 bcc_modes=("cold", "warm", "fswarm"))
         ctx.count("long_histories")
         ctx.dist(hist)
         if i < 2 and ctx.shard == 0:
@@ -627,7 +762,8 @@ def run(ctx):
                 if len(hist) >= 6 and tuple(MIRROR[o] for o in hist) < hist:
                     continue        # a<->b renaming of an enumerated history
                 nexec += exec_all(ctx, kit, stats, hist, kinds,
-                                  SIZES_LONG if len(hist) >= 5 else SIZES, "exhaustive")
+                                  SIZES_LONG if len(hist) >= 5 else SIZES, "exhaustive",
+                                  rot=idx, bcc_every=8)
                 if 2 <= len(hist) <= 5:
                     ctx.dist(hist)
                 elif len(hist) == 6:
@@ -653,7 +789,7 @@ def replay(ctx, case):
     kit = Kit()
     try:
         bad = run_history(kit, case["kind"], case["size"], case["auto_reload"],
-                          tuple(case["hist"]))
+                          tuple(case["hist"]), bcc=case.get("bcc", "none"))
         if bad:
             ctx.violation(bad[0], bad[1], case)
     finally:
